@@ -79,6 +79,11 @@ psf_get_chunk_iterator (SF_PRIVATE * psf, const char * marker_str)
 		psf->iterator->id_size = (unsigned) marker_len ;
 		psf->iterator->hash = hash ;
 		}
+	else
+	{	psf->iterator->hash = 0 ;
+		psf->iterator->id_size = 0 ;
+		psf->iterator->id [0] = 0 ;
+		} ;
 
 	psf->iterator->current = idx ;
 
